@@ -160,7 +160,7 @@ fn judge_rt(c: &RtCase) -> CaseResult {
     s.exec = vec![ItemSpec::List(prog)];
     let reg: BTreeSet<String> = crate::exec::registry_names().into_iter().collect();
     // lock-step against the reference (every step), then the round-trip relation on the final state
-    let r = lockstep("C19", &s, 200, &reg, &|_| false)?;
+    let r = lockstep("C19", &s, 200, &reg, &|_, _| false)?;
     if !r.finished {
         return Err(Fail::new("C19/roundtrip/does-not-terminate", s.brief()));
     }
@@ -203,8 +203,9 @@ pub fn run(ctx: &Ctx) -> PropReport {
         "REF: LIST.ADD pops one item per id in vector order (skipping empty stacks and non-data ids) into one record executing in reverse order of removal; SET replaces / REMOVE deletes exactly the clamped position; BVAL/IVAL/FVAL = n-th value of that type in pre-order from the top or the default; T.ID pushes the constant LIST.ADD maps to stack T; all on the whole snapshot. RT: stacks after ADD;GET;run equal the stacks before (record left on CODE). INV: atom conservation across LIST.ADD.",
     );
     rep.assumptions.push("unspecified: LIST.SET on an empty CODE stack or with an id vector that pops the CODE stack; records containing CODE/EXEC items are not re-executed in the round trip".into());
-    rep.push(run_sharded(ctx, "single-instruction", ctx.tier.pick(60_000, 1_500_000), single_strategy, judge_single, |c| json!({"instruction": c.name, "state": c.state.to_json(), "brief": c.state.brief()})));
-    rep.push(run_sharded(ctx, "add-get-run-roundtrip", ctx.tier.pick(15_000, 400_000), rt_strategy, judge_rt, |c| json!({"state": c.state.to_json(), "ids": c.ids, "via_id_instructions": c.via_id_instructions, "brief": c.state.brief()})));
+    rep.push(run_sharded(ctx, "single-instruction", ctx.tier.pick(250_000, 2_000_000), single_strategy, judge_single, |c| json!({"instruction": c.name, "state": c.state.to_json(), "brief": c.state.brief()})));
+    rep.push(run_sharded(ctx, "add-get-run-roundtrip", ctx.tier.pick(60_000, 600_000), rt_strategy, judge_rt, |c| json!({"state": c.state.to_json(), "ids": c.ids, "via_id_instructions": c.via_id_instructions, "brief": c.state.brief()})));
+    rep.push(crate::props::incontext::run(ctx, ctx.tier.pick(40_000, 600_000)));
     rep
 }
 
